@@ -106,7 +106,7 @@ CHECKS = {
                      "views are not", "reader/writer interleavings are sampled by the Go scheduler under -race, not enumerated"],
         jobs=[
             dict(test="TestC07Ldb", quick=T(4, 600, 40), thorough=T(10, 4000, 80, 3000)),
-            dict(test="TestC07Mem", quick=T(2, 1000, 40), thorough=T(4, 8000, 80, 3000)),
+            dict(test="TestC07Mem", quick=T(2, 1000, 40), thorough=T(6, 3000, 80, 3000)),
             dict(test="TestC07Conc", race=True, quick=T(2, 25), thorough=T(8, 150, 0, 3000)),
         ],
     ),
